@@ -633,6 +633,13 @@ func c04Run(u *Unit) {
 	// interrupted call leaves the flags and the list disagreeing
 	subject := haNames[sh.N-1]
 	k := 0
+	// a failed write of the list itself (the publish step) is always in the sample
+	for i := k; i < len(faults) && k < 1; i++ {
+		if f := faults[i]; f.Kind == "dcs-fail" && f.B.Host == "active_nodes" && f.B.Class == "Set" && f.B.Occ <= 2 {
+			faults[k], faults[i] = faults[i], faults[k]
+			k++
+		}
+	}
 	for pass := 0; pass < 2; pass++ {
 		for i := k; i < len(faults) && k < n/2; i++ {
 			f := faults[i]
